@@ -262,6 +262,39 @@ func runC04(p *Prog, r *Report, tier string) {
 	}
 
 	// (3) invalidation on every error after the id is known
+	checkInvalidate(p, r, dts, first, delCalls, addCalls)
+	checkTemplateReplace(p, r)
+	// data decoder: lookup failure returns before touching the buffer
+	checkLookupFirst(p, r, dds, lookupCall, mapFns)
+}
+
+// templateDecoderAnchors finds the pieces checkInvalidate needs (also used by C17, which imports the rule).
+func templateDecoderAnchors(p *Prog) (dts *ssa.Function, first *ssa.Call, delCalls, addCalls []*ssa.Call) {
+	dts = p.Fn("(*pkg/collector.CollectingProcess).decodeTemplateSet")
+	if dts == nil {
+		return
+	}
+	eachInstr(dts, func(in ssa.Instruction) {
+		c, ok := in.(*ssa.Call)
+		if !ok {
+			return
+		}
+		if calleeName(&c.Call) == "pkg/util.Decode" && first == nil {
+			first = c
+		}
+		if sc := c.Call.StaticCallee(); sc != nil {
+			switch sc.Name() {
+			case "addTemplate":
+				addCalls = append(addCalls, c)
+			case "deleteTemplate", "deleteTemplateWithConds":
+				delCalls = append(delCalls, c)
+			}
+		}
+	})
+	return
+}
+
+func checkInvalidate(p *Prog, r *Report, dts *ssa.Function, first *ssa.Call, delCalls, addCalls []*ssa.Call) {
 	if first == nil {
 		r.Undecided("R-GATE.invalidate", "anchor: template id decode", p.pos(dts.Pos()), "not found")
 	} else {
@@ -339,9 +372,6 @@ func runC04(p *Prog, r *Report, tier string) {
 			}
 		}
 	}
-	checkTemplateReplace(p, r)
-	// data decoder: lookup failure returns before touching the buffer
-	checkLookupFirst(p, r, dds, lookupCall, mapFns)
 }
 
 // checkTemplateReplace: addTemplate stores the new field list on all paths, built from the incoming elements (imported by C01).
